@@ -3,7 +3,7 @@
 the real PGM-index templates to CBMC's C front end.  Scratch feasibility probe, not framework code."""
 import re, sys, os
 
-OPTS = {'narrow': 0, 'noop': []}   # noop: regexes of void functions given an empty body (logging / memory accounting of third-party code)
+OPTS = {'narrow': 0, 'noop': [], 'unreachable': []}   # noop: regexes of void functions given an empty body (logging / memory accounting of third-party code)
 #   # narrow=B: wide mul/div/int->fp are computed on B-bit signed operands under a CHECKED assertion that the operands fit
 
 class Ty:
@@ -755,7 +755,14 @@ def intrinsic(s, nm, rty, args):
     if nm.startswith('llvm.x86.bmi.pdep.'): return 'rt_pdep%d(%s, %s)' % (b, av[0], av[1])
     if nm.startswith('llvm.x86.bmi.pext.'): return 'rt_pext%d(%s, %s)' % (b, av[0], av[1])
     mo = re.match(r'llvm\.(u|s)(add|sub|mul)\.with\.overflow\.i(\d+)', nm)
-    if mo: return 'rt_%s%s_ov%s(%s, %s)' % (mo.group(1), mo.group(2), mo.group(3), av[0], av[1])
+    if mo:
+        sg, opn, nb = mo.group(1), mo.group(2), int(mo.group(3))
+        if nb > 64: raise SyntaxError('overflow intrinsic wider than 64 bits')
+        st = g.cty(rty); T = CINT[g.rnd(nb)]; cop = {'add': '+', 'sub': '-', 'mul': '*'}[opn]
+        if sg == 'u':
+            return '({ %s r_; unsigned __int128 x_ = (unsigned __int128)(%s), y_ = (unsigned __int128)(%s); __int128 w_ = (__int128)x_ %s (__int128)y_; r_.f0 = (%s)w_; r_.f1 = (w_ < 0) || ((unsigned __int128)w_ >> %d) != 0; r_; })' % (st, av[0], av[1], cop, T, nb)
+        a_, b_ = s.sx(args[0][0], av[0]), s.sx(args[1][0], av[1])
+        return '({ %s r_; __int128 w_ = (__int128)(%s) %s (__int128)(%s); r_.f0 = (%s)w_; r_.f1 = w_ < -((__int128)1 << %d) || w_ >= ((__int128)1 << %d); r_; })' % (st, a_, cop, b_, T, nb - 1, nb - 1)
     mo = re.match(r'llvm\.(floor|ceil|round|trunc|fabs|sqrt|rint|nearbyint)\.(f32|f64|f80)', nm)
     if mo: return 'rt_%s_%s(%s)' % (mo.group(1), mo.group(2), av[0])
     raise SyntaxError('intrinsic ' + nm)
@@ -961,6 +968,13 @@ def translate(m, roots):
         if re.match(EXC, c) and g.cty(ret) == 'void':
             # std exception constructors/destructors (bodies live in libstdc++.so): message text is not part of any property
             protos.append('void %s(%s);' % (fname(c), a)); bodies.append('void %s(%s) { }\n' % (fname(c), a)); g.stats['stubbed_exception_ctor_dtor'] += 1
+            continue
+        if any(re.search(rx, c) for rx in OPTS['unreachable']) and not va:
+            # external of third-party code that no encoded path may reach: reaching it is a BOUND failure (never silently ignored)
+            rt_ = g.cty(ret)
+            protos.append('%s %s(%s);' % (rt_, fname(c), a))
+            bodies.append('%s %s(%s) { RT_ASSERT(0, "BOUND: external stubbed as unreachable was reached"); RT_ASSUME(0); %s }\n' % (rt_, fname(c), a, '' if rt_ == 'void' else ('return (%s)0;' % rt_ if ret.k in ('int', 'ptr', 'float', 'double') else '{ %s z_ = {0}; return z_; }' % rt_)))
+            g.stats['stubbed_unreachable'] += 1
             continue
         protos.append('%s %s(%s%s);' % (g.cty(ret), fname(c), a, ', ...' if va else ''))
     # globals (iterate: initializers may reference more globals)
